@@ -802,6 +802,20 @@ pub fn check_c11(cfg: &Config, res: &CaseResult, acc: &mut Acc) {
                     tail_start = prev_len;
                 }
                 tail_steps += 1;
+                // every emission appends at least its opcode byte: the output never stands still or
+                // shrinks between two emissions (bytes taken away from what the body wrote would
+                // leave fewer than T body opcodes behind while all counts still add up)
+                if *out_len <= prev_len.unwrap_or(0) && viol.is_none() {
+                    viol = Some((
+                        "tail_step".into(),
+                        format!(
+                            "collapse-tail emission #{} left the output at {} bytes, not longer than before it ({} bytes): bytes written earlier were removed",
+                            tail_steps,
+                            out_len,
+                            prev_len.unwrap_or(0)
+                        ),
+                    ));
+                }
                 prev_len = Some(*out_len);
             }
             _ => {}
@@ -1552,6 +1566,35 @@ pub fn c15(thorough: bool, seed: u64) -> CheckOutput {
         step_limit: 0,
     };
     let mut acc = bulk(n, seed, &sp, Some(tr), check_c15);
+    // long pickles at rate 0 and 1 (memo beyond 256 entries, LONG_BINGET / BINGET side by side,
+    // long strings): every value of every opcode family still has to pass the mutation layer
+    let n_long = if thorough { 1200 } else { 120 };
+    let long = par_run(
+        n_long,
+        Acc::new,
+        |i, acc| {
+            let mut rng = Rng::new(mix(seed ^ 0xC15, i as u64));
+            let t = 3000 + rng.below(3000) as usize;
+            let cfg = Config {
+                min: t,
+                max: t + 100,
+                mutators: match i % 4 {
+                    0 => vec![Mk::Memoindex],
+                    1 => vec![Mk::Offbyone, Mk::Stringlen],
+                    2 => ALL_MK.iter().copied().filter(|m| *m != Mk::Typeconfusion).collect(),
+                    _ => subset(rng.below(128) as u32),
+                },
+                rate: if i % 8 == 7 { 0.0 } else { 1.0 },
+                order: (i % 7) as u8,
+                ..Config::default_for((5 - i % 6) as u8, if i % 3 == 0 { Entropy::Bytes(rng.bytes(40_000)) } else { Entropy::Seed(rng.next()) })
+            };
+            let res = run_case(&cfg, Some(tr));
+            check_c15(&cfg, &res, acc);
+            acc.count("long_pickles_3000_plus_opcodes", 1);
+        },
+        |a, b| a.merge(b),
+    );
+    acc.merge(long);
     // direct mutator calls (W10)
     crate::mon_api::c15_direct(thorough, seed, &mut acc);
     for k in ["cases_rate0", "cases_rate1"] {
